@@ -96,6 +96,9 @@ def main():
         state_after = interpreter_state()
         res['state_changed'] = {k: [state_before[k], state_after[k]] for k in state_before
                                 if state_before[k] != state_after[k]}
+        fa = foreign_attributes()
+        if fa:
+            res['state_changed']['bs4 classes patched'] = [[], fa]
         if res['ok']:
             res['probe'] = run_probe(job['probe'], res)
     finally:
@@ -170,7 +173,56 @@ def interpreter_state():
     # sys.meta_path / sys.path_hooks are deliberately not watched: third-party dependencies of bs4 (six, used by
     # html5lib) install an importer there, which is not soupsieve's doing
     st['dont_write_bytecode'] = sys.dont_write_bytecode
+    import builtins
+    import copyreg
+    import re as _re
+    st['builtins'] = len(dir(builtins))
+    st['re._MAXCACHE'] = getattr(_re, '_MAXCACHE', None)
+    st['copyreg.foreign'] = sorted(
+        f'{c.__module__}.{c.__qualname__}' for c in copyreg.dispatch_table
+        if not c.__module__.startswith(('soupsieve', 're', 'copyreg', 'builtins')) and c.__module__ != 'collections'
+        and c.__name__ not in ('complex', 'Pattern', 'UnionType')
+    )
+    try:
+        import atexit
+        st['atexit'] = atexit._ncallbacks()
+    except Exception:  # noqa: BLE001
+        pass
+    st['module_aliases'] = sorted(k for k, m in sys.modules.items()
+                                  if getattr(m, '__name__', k).startswith('soupsieve') and getattr(m, '__name__', k) != k)
     return st
+
+
+def foreign_attributes():
+    """Attributes of Beautiful Soup classes that were not defined by Beautiful Soup (monkeypatches)."""
+
+    import inspect
+    out = []
+    b = sys.modules.get('bs4')
+    if b is None:
+        return out
+    root = os.path.dirname(os.path.abspath(b.__file__)) + os.sep
+    classes = []
+    for modname in ('bs4', 'bs4.element', 'bs4.css'):
+        m = sys.modules.get(modname)
+        if m is None:
+            continue
+        for name in ('Tag', 'BeautifulSoup', 'NavigableString', 'PageElement', 'CSS', 'ResultSet', 'Comment'):
+            c = getattr(m, name, None)
+            if isinstance(c, type) and c not in classes:
+                classes.append(c)
+    for c in classes:
+        for name, val in vars(c).items():
+            fn = val
+            if isinstance(val, (staticmethod, classmethod)):
+                fn = val.__func__
+            elif isinstance(val, property):
+                fn = val.fget
+            code = getattr(fn, '__code__', None)
+            if code is not None and not os.path.abspath(code.co_filename).startswith(root) \
+                    and 'soupsieve' in os.path.abspath(code.co_filename):
+                out.append(f'{c.__name__}.{name}')
+    return sorted(out)
 
 
 def run_probe(probe, res):
@@ -216,6 +268,20 @@ def run_probe(probe, res):
     guard('sv.closest', lambda: (lambda r: None if r is None else idx.get(id(r), -2))(soupsieve.closest(sel, t)))
     guard('sv.filter', lambda: ids(soupsieve.filter(sel, soup)))
     guard('sv.compiled.select', lambda: ids(soupsieve.compile(sel, ns).select(soup)))
+    # more call shapes across the bridge: limit (positional and keyword), a pre-compiled selector handed to
+    # Beautiful Soup, escape, and the parser-recorded prefix map that bs4 passes when namespaces= is omitted
+    guard('bs4.select.limit1', lambda: ids(soup.select(sel, ns, 1)))
+    guard('bs4.select.limit_kw', lambda: ids(soup.select(sel, limit=1) if not ns else soup.select(sel, namespaces=ns, limit=1)))
+    guard('sv.select.limit1', lambda: ids(soupsieve.select(sel, soup, ns, 1)))
+    guard('bs4.select.compiled', lambda: ids(soup.select(soupsieve.compile(sel, ns))))
+    guard('bs4.css.iselect.limit2', lambda: ids(list(soup.css.iselect(sel, ns, 2))))
+    guard('sv.iselect.limit2', lambda: ids(list(soupsieve.iselect(sel, soup, ns, 2))))
+    guard('bs4.css.escape', lambda: soup.css.escape('a b#1.c'))
+    guard('sv.escape', lambda: soupsieve.escape('a b#1.c'))
+    if not ns:
+        recorded = dict(getattr(soup, '_namespaces', None) or {})
+        guard('bs4.select.default_ns', lambda: ids(soup.select(sel)))
+        guard('sv.select.recorded_ns', lambda: ids(soupsieve.select(sel, soup, recorded or None)))
     out['n_elements'] = len(els)
     return out
 
